@@ -20,6 +20,7 @@ from lxml import etree
 
 import xs_gen as G
 import xs_lib as X
+from xs_lib import min_len_flag
 from sdc11073.namespaces import PrefixesEnum
 from sdc11073.schema_resolver import SchemaResolver
 from sdc11073.xml_types import xml_structure as xs
@@ -209,3 +210,268 @@ def first_diff_tag(b1, b2):
 
 if req['stream'] == 'classes':
     print(json.dumps(run_classes()))
+
+
+# ------------------------------------------------------------------------------------------------ props
+KIND_OF = None
+
+
+def load_kind_table():
+    """descriptor class name -> model kind: the table of the translator (single source)"""
+    import importlib.util
+    import io
+    spec = importlib.util.spec_from_file_location('gen_schema_tab', __file__.replace('c05_impl.py', 'gen_schema.py'))
+    src = open(spec.origin).read()
+    head = src[:src.index('names = {}')]
+    ns = {}
+    stdin = sys.stdin
+    sys.stdin = io.StringIO('{}')
+    try:
+        exec(compile(head, spec.origin, 'exec'), ns)  # noqa: S102  (KIND table + conv_of only; no output produced)
+    finally:
+        sys.stdin = stdin
+    return ns['KIND'], ns['conv_of']
+
+
+class PropCase:
+    def __init__(self, rng, gen, cids):
+        self.rng, self.gen, self.cids = rng, gen, cids
+        self.names = {}
+        self.atoms = {'': 0}
+        self.tab = []          # [(VStruct literal, tree literal)]
+        self.nested = []       # [(canonical dump, uid)]
+
+    def nid(self, s):
+        if s == X.xs.QN_TYPE.text:
+            return 0
+        if s not in self.names:
+            self.names[s] = len(self.names) + 1
+        return self.names[s]
+
+    def atom(self, s):
+        if s is None:
+            s = ''
+        if s not in self.atoms:
+            self.atoms[s] = len(self.atoms)
+        return self.atoms[s]
+
+    # ---- xml -> model tree
+    def qtext(self, el, text):
+        """canonical form of a prefix:local text"""
+        try:
+            from sdc11073.namespaces import text_to_qname
+            return text_to_qname(text, el.nsmap).text
+        except Exception:  # noqa: BLE001
+            return text
+
+    def tree(self, el, own=None):
+        """own = (slot kind, name, mode) of the property under test: how ITS slot is tokenised"""
+        attrs = []
+        for k, v in el.attrib.items():
+            if k == X.xs.QN_TYPE.text:
+                cls = self.class_of_type(el, v)
+                attrs.append((0, [cls]))
+                continue
+            if own and own[0] == 'a' and own[1] == k:
+                attrs.append((self.nid('@' + k), self.tok(el, v, own[2]) if own[2] != 'scalar' else [self.atom(v)]))
+            else:
+                attrs.append((self.nid('@' + k), [self.atom(v)]))
+        text = el.text
+        if own and own[0] == 't':
+            toks = self.tok(el, text, own[2]) if text not in (None, '') else []
+        else:
+            toks = [self.atom(text)] if text not in (None, '') else []
+        kids = []
+        for ch in el:
+            if not isinstance(ch.tag, str):
+                continue
+            sub_own = ('t', None, own[2]) if own and own[0] == 'e' and own[1] == ch.tag else None
+            kids.append(self.tree(ch, sub_own))
+        return ['N', self.nid(el.tag), attrs, toks or None, kids]
+
+    def tok(self, el, text, mode):
+        if mode == 'words':
+            return [self.atom(w) for w in text.split(' ') if w]
+        if mode == 'wsplit':
+            return [self.atom(w) for w in text.split()]
+        if mode == 'qwords':
+            return [self.atom(self.qtext(el, w)) for w in text.split()]
+        if mode == 'qname':
+            return [self.atom(self.qtext(el, text))]
+        if mode == 'curts':
+            return [1]
+        return [self.atom(text)] if text != '' else []
+
+    def class_of_type(self, el, text):
+        from sdc11073.namespaces import text_to_qname
+        qn = text_to_qname(text, el.nsmap)
+        for key, cid in self.cids.items():
+            c = CLASS_BY_KEY.get(key)
+            if c is not None and getattr(c, 'NODETYPE', None) == qn and not key.startswith('soapenvelope'):
+                return cid
+        return 999999
+
+
+CLASS_BY_KEY = {X.class_key(c): c for c in X.all_classes()}
+
+
+def lit_tree(t):
+    _, tag, attrs, text, kids = t
+    a = '; '.join(f'({n}%N, [' + '; '.join(str(z) for z in v) + '])' for n, v in attrs)
+    x = 'None' if text is None else '(Some [' + '; '.join(str(z) for z in text) + '])'
+    return f'(Node {tag}%N [{a}] {x} [' + '; '.join(lit_tree(k) for k in kids) + '])'
+
+
+def run_props():
+    rng = random.Random(req['seed'])
+    kind_tab, conv_of = load_kind_table()
+    classes = X.all_classes()
+    cids = {X.class_key(c): i + 1 for i, c in enumerate(classes)}
+    decls = []
+    for c in classes:
+        try:
+            for name, p in X.class_props(c):
+                decls.append((c, name, p))
+        except X.BrokenClass:
+            continue
+    by_cls = {}
+    for d in decls:
+        by_cls.setdefault(type(d[2]).__name__, []).append(d)
+    cases = []
+    hist = {}
+    order = sorted(by_cls)
+    for i in range(req['count']):
+        tn = order[i % len(order)]
+        owner, name, p = rng.choice(by_cls[tn])
+        try:
+            case = one_prop_case(rng, owner, name, p, kind_tab[tn], conv_of(p), cids)
+        except G.Skip:
+            case = None
+        except Exception as ex:  # noqa: BLE001
+            case = {'crash': f'{X.class_key(owner)}.{name}: ' + traceback.format_exc()[-700:]}
+        if case is not None:
+            case['descriptor'] = tn
+            case['member'] = f'{X.class_key(owner)}.{name}'
+            cases.append(case)
+            hist[tn] = hist.get(tn, 0) + 1
+    return {'cases': cases, 'hist': hist, 'descriptor_classes': len(order)}
+
+
+def b(x):
+    return 'true' if x else 'false'
+
+
+def one_prop_case(rng, owner, name, p, kind, conv, cids):
+    gen = G.Gen(rng, max_depth=1, max_list=2)
+    pc = PropCase(rng, gen, cids)
+    is_attr = isinstance(p, xs._AttributeBase)  # noqa: SLF001
+    if is_attr:
+        an = p._attribute_name  # noqa: SLF001
+        slot_name = an.text if isinstance(an, etree.QName) else an
+        slot_lit = f'(Some {pc.nid("@" + slot_name)}%N)'
+    else:
+        qn = p._sub_element_name  # noqa: SLF001
+        slot_name = None if qn is None else (qn.text if isinstance(qn, etree.QName) else str(qn))
+        slot_lit = 'None' if slot_name is None else f'(Some {pc.nid(slot_name)}%N)'
+    if slot_name is None and kind not in ('KText', 'KTextList', 'KQNameList'):
+        raise G.Skip('node itself')
+    mode = {'KAttrList': 'words', 'KTextList': 'words', 'KQNameList': 'qwords', 'KCurTs': 'curts'}.get(kind, 'scalar')
+    if isinstance(p, (xs.QNameAttributeProperty, xs.NodeTextQNameProperty, xs.NodeEnumQNameProperty)):
+        mode = 'qname'
+    if kind == 'KTextList':
+        mode = 'wsplit'
+    own = ('a', slot_name, mode) if is_attr else (('t', None, mode) if slot_name is None else ('e', slot_name, mode))
+    vc = getattr(p, 'value_class', None)
+    vid = cids.get(X.class_key(vc), 0) if isinstance(vc, type) and issubclass(vc, X.BASES) else 0
+    d = p._default_py_value  # noqa: SLF001
+    plit = (f'(mkProp {kind} {slot_lit} {conv} {b(p.is_optional)} {b(d is not None)} {b(d is not None and X.is_mutable(d))} '
+            f'{vid}%N {b(min_len_flag(p))})')
+    # ---- the value
+    inst = X.construct(owner)
+    r = rng.random()
+    if r < 0.2:
+        v = None
+    else:
+        part = gen.particle(gen.ctype_of(owner), p)
+        v = gen.value(owner, name, p, 0, not p.is_optional, part, 0, 2)
+    inst.__dict__[p._local_var_name] = v  # noqa: SLF001
+    # ---- the node: empty, or with unrelated content
+    node = etree.Element(etree.QName(X.VERIF_NS, 'Owner'), nsmap=dict(X.NSMAP, vx=X.VERIF_NS))
+    if rng.random() < 0.5:
+        node.set('zzOther', 'o1')
+        etree.SubElement(node, etree.QName(X.VERIF_NS, 'Other')).text = 'o2'
+    if rng.random() < 0.25 and kind in ('KAttr', 'KAttrList') and mode in ('scalar', 'words') and conv in ('CStr', 'COther') \
+            and not isinstance(p, (xs.BooleanAttributeProperty, xs.DecimalListAttributeProperty)):
+        node.set(p._attribute_name, 'old')  # noqa: SLF001
+    if rng.random() < 0.25 and kind in ('KText', 'KTextList') and slot_name is not None and mode in ('scalar', 'wsplit') \
+            and conv in ('CStr', 'COther'):
+        etree.SubElement(node, slot_name).text = 'old'
+    before = pc.tree(etree.fromstring(etree.tostring(node)), own)
+
+    def to_val(x, reading=False):
+        if x is None:
+            return 'VNone'
+        if kind in ('KAttr', 'KCurTs', 'KText'):
+            if kind == 'KCurTs':
+                return 'VAtom 1'
+            if isinstance(x, etree.QName):
+                return f'VAtom {pc.atom(x.text)}'
+            if hasattr(x, 'value') and isinstance(getattr(x, 'value'), etree.QName):
+                return f'VAtom {pc.atom(x.value.text)}'
+            if isinstance(p, xs.DateOfBirthProperty):
+                return f'VAtom {pc.atom(str(x))}'
+            return f'VAtom {pc.atom(p._converter.to_xml(x))}'  # noqa: SLF001
+        if kind in ('KAttrList',):
+            return 'VWords [' + '; '.join(str(pc.atom(p._converter.elem_to_xml(e))) for e in x) + ']'  # noqa: SLF001
+        if kind in ('KTextList', 'KElemTextList'):
+            return 'VWords [' + '; '.join(str(pc.atom(e if isinstance(e, str) or e is None else str(e))) for e in x) + ']'
+        if kind == 'KQNameList':
+            return 'VWords [' + '; '.join(str(pc.atom(e.text)) for e in x) + ']'
+        if kind in ('KSub', 'KSubNonEmpty'):
+            return struct_val(x)
+        if kind == 'KSubList':
+            return 'VList [' + '; '.join(struct_val(e) for e in x) + ']'
+        return 'VOpaque [' + '; '.join(lit_tree(pc.tree(etree.fromstring(etree.tostring(e)))) for e in x) + ']'
+
+    def struct_val(x):
+        if d is not None and x is d:
+            return 'VDflt'
+        dump = X.canon(x)
+        for cd, lit in pc.nested:
+            if cd == dump:
+                return lit
+        uid = len(pc.nested) + 1
+        empty = hasattr(x, 'is_empty') and x.is_empty()
+        lit = f'(VStruct {cids.get(X.class_key(type(x)), 0)}%N [{"VNone" if empty else f"VAtom {uid}"}])'
+        pc.nested.append((dump, lit))
+        t = pc.tree(etree.fromstring(etree.tostring(X.serialise(x, etree.QName(X.VERIF_NS, 'Nested')))))
+        pc.tab.append(f'({lit}, {lit_tree(t)})')
+        return lit
+
+    vlit = to_val(v)
+    orig = etree.tostring(node)
+    try:
+        p.update_xml_value(inst, node)
+        read_node = etree.fromstring(etree.tostring(node))
+        out_tree = f'(Some {lit_tree(pc.tree(read_node, own))})'
+        wrote = True
+    except Exception:  # noqa: BLE001   update_xml_value raises (mandatory value missing, ...): model says None
+        read_node = etree.fromstring(orig)      # the model reads the unchanged input in that case
+        out_tree = 'None'
+        wrote = False
+    try:
+        rv = p.get_py_value_from_node(X.construct(owner), read_node)
+        absent = slot_name is not None and not is_attr and read_node.find(slot_name) is None
+        if kind in ('KSub', 'KSubNonEmpty', 'KText') and d is not None and absent and rv is not None:
+            rlit = 'VDflt'       # the declared default (the object itself today, a copy of it once repaired)
+        else:
+            rlit = to_val(rv, True)
+        out_val = f'(Some ({rlit}))'
+    except Exception:  # noqa: BLE001
+        out_val = 'None'
+    return {'input': f'({plit}, [{"; ".join(pc.tab)}], {vlit}, {lit_tree(before)})',
+            'tree': out_tree, 'val': out_val, 'kind': kind, 'wrote': wrote, 'none_value': v is None}
+
+
+if req['stream'] == 'props':
+    print(json.dumps(run_props()))
